@@ -74,7 +74,8 @@ def _column_getattr(self, sx, attr, st, node):
             lst = sx2.deref(a[0], s)
             ty = COLS[self.name]
             if not (isinstance(lst, Val) and isinstance(lst.ty, V.List) and lst.ty.elem == ty):
-                raise Unsupported("column.in_() of %r" % (lst,), n)
+                # a sub-select or anything else the model does not interpret: SOME condition on the row (contract `true`)
+                return [R(s, Conc(_unknown_pred("%s IN <uninterpreted>" % self.name)))]
             name, lt, lterm = self.name, lst.ty, lst.term
 
             def pred(row):
@@ -82,7 +83,15 @@ def _column_getattr(self, sx, attr, st, node):
                 return z3.Exists([i], z3.And(i >= 0, i < lt.n(lterm), lt.at(lterm, i) == ROW.get(row, name)))
             return [R(s, Conc(Pred(pred, "%s IN (...)" % name)))]
         return [R(st, Func(in_, "column.in_"))]
+    if attr in ("not_in", "notin_", "like", "ilike", "notlike", "is_", "is_not", "isnot", "startswith", "endswith", "contains", "between", "op", "any_", "all_"):
+        # operators the model does not interpret: SOME condition on the row (contract `true`)
+        return [R(st, Func(lambda sx2, a, k, s, n: [R(s, Conc(_unknown_pred("%s.%s(<uninterpreted>)" % (self.name, attr))))], "column." + attr))]
     raise Unsupported("column.%s" % attr, node)
+
+
+def _unknown_pred(text):
+    f = z3.Function(fresh_name("unk_rowpred"), ROW.sort(), z3.BoolSort())
+    return Pred(lambda row: f(row), text)
 
 
 Column.__pyvc_getattr__ = _column_getattr
